@@ -69,6 +69,6 @@ def coverage(h, rule_extra=''):
                                             'tx_auto_destroyed', 'data_other_in', 'data_other_out', 'handover_resumes', 'tunnels', 'gaps', 'gaps_refused',
                                             'sticky_in', 'sticky_out', 'sticky_seq', 'monitor_checks', 'body_bytes_req', 'body_bytes_res', 'end_markers',
                                             'max_in_buf', 'max_out_buf', 'max_pending_header', 'max_tx_list', 'bytes_offered_in', 'bytes_offered_out',
-                                            'resp_restart_100', 'leftover_in', 'leftover_out', 'stalls', 'distinct_state_pairs', 'trace_sites')},
+                                            'resp_restart_100', 'leftover_in', 'leftover_out', 'stalls', 'null_tx_callbacks', 'distinct_state_pairs', 'trace_sites')},
     }
     return cov
